@@ -60,6 +60,11 @@ CHECKS = {
    "2..6 replies with borrowed string fields (success and error parameters, lengths dialled around the 256-byte steps) are received through Connection::chain_call / a `more` call; every yielded &str is kept and re-read after each later item: its bytes must equal the snapshot and all held slices must lie in one buffer at the offsets of their frames. Judged for class A (the whole batch was read before the first item was yielded); class B is the known finding replystream-item-across-read (witness replayed on every run, class B cases excluded by construction and counted).",
    "Trusted: native execution - stale memory is made observable by the poisoning / quarantining allocator and the address check rather than by a memory-model tool. Only values borrowed through the reply stream are covered: for the plain receive methods the borrow checker already forbids a second receive while a borrow lives.",
    "§3 C11"),
+ "C13": ("exploration", "vcheck",
+   "grammar-based property testing (proptest, shrinking): interface trees rendered with random legal layout, token / byte mutants, every prefix of generated texts, IDL-flavoured and arbitrary strings; oracles: deep comparison of the parsed description (public accessors) with the generating tree, an independent three-valued recogniser (valid / definitely invalid / not judged) as differential, token preservation for every accepted text, panic = violation",
+   "Valid texts (every type constructor to depth 4, every legal name class, keywords as field names, own-line comments in the listed positions, LF / CRLF and arbitrary inter-token white space) must parse to exactly the generating tree; mutants, truncations at every byte and soup are classified by an independent recursive-descent recogniser: definitely invalid texts must be rejected, valid ones must yield the recogniser's tree, texts only a lenient reading accepts are not judged; every accepted text must keep all its tokens (nothing ignored); no input may panic the parser.",
+   "Trusted: the harness author's reading of the Varlink grammar in the recogniser (strict and lenient variants; the carve-outs are listed in DESIGN.md §3 C13); termination is only observed (a hang surfaces as the caller's time-out = inconclusive).",
+   "§3 C13"),
  "C06": ("exploration", "vcheck",
    "model-based property testing of chains (proptest, shrinking): generated flag sequences + conforming server scripts + trailing frames + chunkings, stream polled by hand; exhaustive enumeration of all flag sequences up to length 4 x 3 script families x 3 trailing counts x 6 chunkings; oracle = owed-reply model + reference decode + transport poll counter",
    "Chains of 1..6 calls over {plain, oneway, more} are sent through Connection::chain_call/append/send against a scripted transport that then stays silent; the single transport write must equal the calls' reference encodings, the stream must yield exactly the owed replies (as the reference classifies each frame) and then None without polling the transport, and a later receive_reply must still find every trailing frame.",
